@@ -15,139 +15,329 @@ import (
 
 func init() { register("C20", checkC20) }
 
-func checkC20(c *an.Ctx) {
-	c.Rule("C20.1", "selection table (E2/E3): NewWatcher globs every include pattern with doublestar.Glob, tests every match against every exclude pattern with doublestar.PathMatch(pattern, match), and appends the match to the watched paths iff no exclude matched; glob and match errors are returned")
-	c.Rule("C20.2", "event registry (E9): fsnotifyMap has a key for every exported constant of type fsnotify.Op; the default event list equals the set of its values; configured names are stored as given")
-	c.Rule("C20.3", "filter and variables (E3/E5): in the handler the test events[name(event.Op)] dominates the run; the run's task is a fresh copy whose env is [Task.Env < {EventName: name, EventPath: event.Name}]")
-	c.Rule("C20.4", "registration (E3): Watcher.Run adds every selected path to fsnotify and returns an Add error; a renamed path is re-added")
-	c.Rule("C20.5", "keeps serving (E3/E8): the event loop ends only when the watcher is closed or a channel is closed; each handler runs in its own goroutine registered with the events WaitGroup; no TaskRunner.Run follows a TaskRunner.Cancel on the same runner (the runner's context is created once and Run refuses a cancelled context)")
-	c.NotDecided = append(c.NotDecided, "doublestar's matching semantics, fsnotify delivery", "combined Op bit masks (looked up by exact value: observation)", "the 1 s polling period")
-	p := c.P
-	nw := p.Func("internal/watch", "", "NewWatcher")
-	run := p.Func("internal/watch", "Watcher", "Run")
-	handle := p.Func("internal/watch", "Watcher", "handle")
-	if nw == nil || run == nil {
-		c.Und("C20.0", "watch.NewWatcher", token.NoPos, "NewWatcher / Watcher.Run not found")
-		return
-	}
-	selection(c, nw, "C20.1")
-	registry(c, nw, "C20.2")
-	if handle == nil {
-		// by role: the function that looks the event up in fsnotifyMap
-		for _, fn := range p.Funcs {
-			if inPkgs("internal/watch")(fn) {
-				an.EachInstr(fn, func(in ssa.Instruction) {
-					if lk, ok := in.(*ssa.Lookup); ok {
-						if g, ok := an.Resolve(lk.X).(*ssa.UnOp); ok {
-							if gl, ok := g.X.(*ssa.Global); ok && gl.Name() == "fsnotifyMap" {
-								handle = fn
-							}
-						}
-					}
-				})
-			}
-		}
-	}
-	if handle == nil {
-		c.Und("C20.3", "watch:handler", token.NoPos, "no function maps an event's Op through fsnotifyMap")
-	} else {
-		handler(c, handle, "C20.3")
-	}
-	registration(c, run, "C20.4")
-	serving(c, run, handle, "C20.5")
+// watchRoles are the parts of internal/watch the rules talk about, found by
+// what the code does; only the exported API (NewWatcher, Watcher.Run) is
+// looked up by name.
+type watchRoles struct {
+	nw, run  *ssa.Function
+	inW      func(*ssa.Function) bool
+	scopeNew map[*ssa.Function]bool // internal/watch functions NewWatcher runs synchronously
+	scopeRun map[*ssa.Function]bool // internal/watch functions Watcher.Run reaches (calls, go, closures)
+	syncRun  map[*ssa.Function]bool // … by synchronous calls only
+	opTable  *ssa.Global            // map[fsnotify.Op]string
+	evLoop   *an.Loop               // the loop that receives from fsnotify's Events channel
+	loopFn   *ssa.Function
+	launch   ssa.CallInstruction // the instruction in the event loop that starts the handler
+	handle   *ssa.Function
 }
 
-func selection(c *an.Ctx, nw *ssa.Function, rule string) {
+func resolveWatch(c *an.Ctx) *watchRoles {
 	p := c.P
-	var watchP, exclP *ssa.Parameter
-	for _, prm := range nw.Params {
-		switch prm.Name() {
-		case "watch":
-			watchP = prm
-		case "exclude":
-			exclP = prm
+	wr := &watchRoles{nw: p.Func("internal/watch", "", "NewWatcher"), run: p.Func("internal/watch", "Watcher", "Run"), inW: inPkgs("internal/watch")}
+	if wr.nw == nil || wr.run == nil {
+		return wr
+	}
+	set := func(m map[*ssa.Function][]an.CallEdge) map[*ssa.Function]bool {
+		out := map[*ssa.Function]bool{}
+		for f := range m {
+			out[f] = true
 		}
+		return out
 	}
-	var glob *ssa.Call
-	for _, ci := range an.CallsIn(nw, "github.com/bmatcuk/doublestar.Glob") {
-		glob, _ = ci.(*ssa.Call)
-	}
-	if glob == nil || watchP == nil || exclP == nil {
-		c.Bad(rule, an.Short(nw)+":Glob", nw.Pos(), "NewWatcher does not expand its include patterns with doublestar.Glob")
-		return
-	}
-	loops := an.Loops(nw)
-	var lInc, lMatch, lExc *an.Loop
-	for _, l := range loops {
-		op := l.RangeOperand()
-		if op == nil {
-			continue
+	wr.scopeNew = set(p.Reach([]*ssa.Function{wr.nw}, func(e an.CallEdge) bool { return wr.inW(e.Callee) && e.Kind != an.EdgeGo }))
+	wr.scopeRun = set(p.Reach([]*ssa.Function{wr.run}, func(e an.CallEdge) bool { return wr.inW(e.Callee) }))
+	wr.syncRun = set(p.Reach([]*ssa.Function{wr.run}, func(e an.CallEdge) bool { return wr.inW(e.Callee) && e.Kind != an.EdgeGo }))
+	// the event-name table: the package-level map[fsnotify.Op]string
+	if sp := p.Pkg("internal/watch"); sp != nil {
+		var names []string
+		for name := range sp.Members {
+			names = append(names, name)
 		}
-		switch {
-		case an.SameValue(op, watchP):
-			lInc = l
-		case an.SameValue(op, exclP):
-			lExc = l
-		default:
-			for _, src := range an.Sources(op) {
-				if e, ok := src.(*ssa.Extract); ok && e.Tuple == ssa.Value(glob) && e.Index == 0 {
-					lMatch = l
+		sort.Strings(names)
+		for _, name := range names {
+			g, ok := sp.Members[name].(*ssa.Global)
+			if !ok {
+				continue
+			}
+			if m, ok := an.Deref(g.Type()).Underlying().(*types.Map); ok && an.TypeIs(m.Key(), "github.com/fsnotify/fsnotify", "Op") {
+				if b, ok := m.Elem().Underlying().(*types.Basic); ok && b.Kind() == types.String {
+					wr.opTable = g
 				}
 			}
 		}
 	}
-	if lInc == nil || lMatch == nil {
-		c.Bad(rule, an.Short(nw)+":loops", nw.Pos(), "NewWatcher does not range over every include pattern and every match of it")
-		return
+	// the event loop: a loop under Watcher.Run that receives from fsnotify.Watcher.Events
+	runsTask := func(f *ssa.Function) bool {
+		for g := range p.Reach([]*ssa.Function{f}, func(e an.CallEdge) bool { return wr.inW(e.Callee) }) {
+			if len(an.CallsIn(g, "(*pkg/runner.TaskRunner).Run")) > 0 {
+				return true
+			}
+		}
+		return false
 	}
-	_, incElems := lInc.RangeKeyValue()
-	okGlobArg := false
-	for _, e := range incElems {
-		if an.SameValue(glob.Call.Args[0], e) {
-			okGlobArg = true
+	var fns []*ssa.Function
+	for f := range wr.scopeRun {
+		fns = append(fns, f)
+	}
+	sort.Slice(fns, func(i, j int) bool { return fns[i].String() < fns[j].String() })
+	for _, f := range fns {
+		for _, l := range an.Loops(f) {
+			recv := false
+			for b := range l.Blocks {
+				for _, in := range b.Instrs {
+					switch x := in.(type) {
+					case *ssa.Select:
+						for _, stt := range x.States {
+							if stt.Dir == types.RecvOnly && an.FieldProv(stt.Chan) == "Watcher.Events" {
+								recv = true
+							}
+						}
+					case *ssa.UnOp:
+						if x.Op == token.ARROW && an.FieldProv(x.X) == "Watcher.Events" {
+							recv = true
+						}
+					}
+				}
+			}
+			if !recv {
+				continue
+			}
+			if wr.evLoop == nil || len(l.Blocks) < len(wr.evLoop.Blocks) {
+				wr.evLoop, wr.loopFn = l, f
+			}
 		}
 	}
-	c.Check(okGlobArg && lInc.Blocks[glob.Block()], rule, an.Short(nw)+":Glob(pattern)", glob.Pos(), "each include pattern is globbed", "Glob is not applied to each include pattern")
+	if wr.evLoop != nil {
+		for _, b := range wr.loopFn.Blocks {
+			if !wr.evLoop.Blocks[b] {
+				continue
+			}
+			for _, in := range b.Instrs {
+				ci, ok := in.(ssa.CallInstruction)
+				if !ok {
+					continue
+				}
+				if _, isDefer := in.(*ssa.Defer); isDefer {
+					continue
+				}
+				for _, callee := range p.Callees(ci.Common()) {
+					if wr.inW(callee) && runsTask(callee) {
+						if _, isGo := in.(*ssa.Go); isGo || wr.launch == nil {
+							wr.launch, wr.handle = ci, callee
+						}
+					}
+				}
+			}
+		}
+	}
+	return wr
+}
+
+func checkC20(c *an.Ctx) {
+	c.Rule("C20.1", "selection table (E2/E3, helpers of internal/watch inlined): NewWatcher globs every include pattern with doublestar.Glob, tests every match against every exclude pattern with doublestar.PathMatch(pattern, match), and appends the match to the watched paths iff no exclude matched; glob and match errors are returned; the configuration's watch/exclude/events lists are handed to the matching parameters")
+	c.Rule("C20.2", "event registry (E9): the package's map[fsnotify.Op]string has a key for every exported constant of type fsnotify.Op; the default event list equals the set of its values; configured names are stored as given")
+	c.Rule("C20.3", "filter and variables (E2 trace of the handler started by the event loop, E5): the task runs exactly once when events[table[event.Op]] holds and not at all otherwise; the run's task is a fresh copy of Watcher.task whose env is [Task.Env < {EventName: table[event.Op], EventPath: event.Name}]")
+	c.Rule("C20.4", "registration (E3): Watcher.Run adds every selected path to fsnotify and returns an Add error; a renamed path is re-added")
+	c.Rule("C20.5", "keeps serving (E3/E8): the event loop ends only when the watcher is closed or a channel is closed; each handler runs in its own goroutine registered with the events WaitGroup; no TaskRunner.Run follows a TaskRunner.Cancel on the same runner (the runner's context is created once and Run refuses a cancelled context)")
+	c.NotDecided = append(c.NotDecided, "doublestar's matching semantics, fsnotify delivery", "combined Op bit masks (looked up by exact value: observation)", "the 1 s polling period")
+	wr := resolveWatch(c)
+	if wr.nw == nil || wr.run == nil {
+		c.Und("C20.0", "watch.NewWatcher", token.NoPos, "NewWatcher / Watcher.Run not found")
+		return
+	}
+	if wr.handle != nil {
+		c.Anchor("event handler", an.Short(wr.handle))
+	}
+	if wr.loopFn != nil {
+		c.Anchor("event loop", an.Short(wr.loopFn))
+	}
+	selection(c, wr, "C20.1")
+	registry(c, wr, "C20.2")
+	if wr.handle == nil {
+		c.Bad("C20.3", "watch:handler", wr.run.Pos(), "nothing started from the event loop under Watcher.Run runs the watcher's task: file events trigger nothing")
+	} else {
+		handler(c, wr, "C20.3")
+	}
+	registration(c, wr, "C20.4")
+	serving(c, wr, "C20.5")
+}
+
+// rangeElemOfParam reports the parameter of `of` whose elements v denotes:
+// v (looked through the helpers of the package and their callers) is the
+// element of a range loop over that parameter.
+func rangeElemOfParam(p *an.Prog, v ssa.Value, of *ssa.Function) *ssa.Parameter {
+	for _, s := range p.DeepSources(v, 3, true) {
+		in, ok := s.(ssa.Instruction)
+		if !ok || in.Parent() == nil {
+			continue
+		}
+		for _, l := range an.Loops(in.Parent()) {
+			_, vals := l.RangeKeyValue()
+			isElem := false
+			for _, e := range vals {
+				if e == s || an.SameValue(e, s) {
+					isElem = true
+				}
+			}
+			if !isElem || l.RangeOperand() == nil {
+				continue
+			}
+			stop := func(x ssa.Value) bool { prm, ok := x.(*ssa.Parameter); return ok && prm.Parent() == of }
+			for _, o := range p.DeepSourcesStop(l.RangeOperand(), 3, true, stop) {
+				if prm, ok := o.(*ssa.Parameter); ok && prm.Parent() == of {
+					return prm
+				}
+			}
+		}
+	}
+	return nil
+}
+
+func paramIndex(fn *ssa.Function, prm *ssa.Parameter) int {
+	for i, q := range fn.Params {
+		if q == prm {
+			return i
+		}
+	}
+	return -1
+}
+
+func selection(c *an.Ctx, wr *watchRoles, rule string) {
+	p := c.P
+	nw := wr.nw
+	var glob, pm *ssa.Call
+	nGlob, nPM := 0, 0
+	for _, f := range sortedFns(wr.scopeNew) {
+		for _, ci := range an.CallsIn(f, "github.com/bmatcuk/doublestar.Glob") {
+			if call, ok := ci.(*ssa.Call); ok {
+				glob = call
+				nGlob++
+			}
+		}
+		for _, ci := range an.CallsIn(f, "github.com/bmatcuk/doublestar.PathMatch") {
+			if call, ok := ci.(*ssa.Call); ok {
+				pm = call
+				nPM++
+			}
+		}
+	}
+	if glob == nil {
+		c.Bad(rule, an.Short(nw)+":Glob", nw.Pos(), "NewWatcher does not expand its include patterns with doublestar.Glob")
+		return
+	}
+	if nGlob > 1 || nPM > 1 {
+		c.Und(rule, an.Short(nw)+":Glob", nw.Pos(), "more than one Glob (%d) or PathMatch (%d) call under NewWatcher: which one selects the paths is not decided", nGlob, nPM)
+		return
+	}
+	gf := glob.Parent()
+	var lMatch *an.Loop
+	for _, l := range an.Loops(gf) {
+		op := l.RangeOperand()
+		if op == nil {
+			continue
+		}
+		for _, src := range an.Sources(op) {
+			if e, ok := src.(*ssa.Extract); ok && e.Tuple == ssa.Value(glob) && e.Index == 0 {
+				lMatch = l
+			}
+		}
+	}
+	incP := rangeElemOfParam(p, glob.Call.Args[0], nw)
+	if incP == nil || lMatch == nil {
+		c.Bad(rule, an.Short(nw)+":loops", glob.Pos(), "NewWatcher does not range over every include pattern (Glob's argument is %s) and every match of it", an.Prov(glob.Call.Args[0]))
+		return
+	}
+	c.OK(rule, an.Short(nw)+":Glob(pattern)", glob.Pos(), "each element of parameter %q is globbed and the matches are ranged over", incP.Name())
 	fate := p.ErrFate(glob, noReturn)
-	c.Check(fate.Kind == "propagated" || fate.Kind == "converted", rule, an.Short(nw)+":err(Glob)", glob.Pos(), "a malformed include pattern is an error", "a Glob error is dropped: "+fate.Detail)
+	c.Check(fate.Kind == "propagated" || fate.Kind == "converted", rule, an.Short(gf)+":err(Glob)", glob.Pos(), "a malformed include pattern is an error", "a Glob error is dropped: "+fate.Detail)
 	_, matchElems := lMatch.RangeKeyValue()
-	isMatch := func(v ssa.Value) bool {
+	isMatch := func(v ssa.Value, st *an.State) bool {
 		for _, e := range matchElems {
-			if an.SameValue(v, e) {
+			if an.SameValue(v, e) || (st != nil && st.SameRoot(v, e)) {
 				return true
 			}
 		}
 		return false
 	}
 	// the exclusion test
-	var pm *ssa.Call
-	for _, ci := range an.CallsIn(nw, "github.com/bmatcuk/doublestar.PathMatch") {
-		pm, _ = ci.(*ssa.Call)
+	var excP *ssa.Parameter
+	if pm != nil {
+		excP = rangeElemOfParam(p, pm.Call.Args[0], nw)
 	}
-	if len(exclUses(nw, exclP)) == 0 {
-		c.Bad(rule, an.Short(nw)+":exclude", nw.Pos(), "the exclude patterns are never consulted")
-		return
+	anyOther := false
+	for _, prm := range nw.Params {
+		if prm != incP && len(exclUses(nw, prm)) > 0 {
+			if sl, ok := prm.Type().Underlying().(*types.Slice); ok {
+				if b, ok := sl.Elem().Underlying().(*types.Basic); ok && b.Kind() == types.String {
+					anyOther = true
+				}
+			}
+		}
 	}
-	if pm == nil || lExc == nil {
+	if pm == nil || excP == nil || excP == incP {
+		if !anyOther {
+			c.Bad(rule, an.Short(nw)+":exclude", nw.Pos(), "the exclude patterns are never consulted")
+			return
+		}
 		c.Bad(rule, an.Short(nw)+":PathMatch", nw.Pos(), "matches are not tested against every exclude pattern with doublestar.PathMatch(pattern, match): an exclude decided by anything else (a shortcut, a precompiled matcher) can disagree with the glob semantics")
 		return
 	}
-	_, excElems := lExc.RangeKeyValue()
-	argOK := isMatch(pm.Call.Args[1])
-	patOK := false
-	for _, e := range excElems {
-		if an.SameValue(pm.Call.Args[0], e) {
-			patOK = true
+	pf := pm.Parent()
+	argOK := false
+	for _, s := range p.DeepSources(pm.Call.Args[1], 3, true) {
+		if isMatch(s, nil) {
+			argOK = true
 		}
 	}
-	c.Check(argOK && patOK && lMatch.Blocks[lExc.Header], rule, an.Short(nw)+":PathMatch(args)", pm.Pos(), "PathMatch(exclude pattern, match) for every exclude pattern of every match", "the exclusion test is not PathMatch(<each exclude pattern>, <the match>)")
+	c.Check(argOK, rule, an.Short(pf)+":PathMatch(args)", pm.Pos(), fmt.Sprintf("PathMatch(<each element of %q>, <the match>)", excP.Name()), "the exclusion test is not PathMatch(<each exclude pattern>, <the match>)")
 	fate2 := p.ErrFate(pm, noReturn)
-	c.Check(fate2.Kind == "propagated" || fate2.Kind == "converted", rule, an.Short(nw)+":err(PathMatch)", pm.Pos(), "a malformed exclude pattern is an error", "a PathMatch error is dropped: "+fate2.Detail)
+	c.Check(fate2.Kind == "propagated" || fate2.Kind == "converted", rule, an.Short(pf)+":err(PathMatch)", pm.Pos(), "a malformed exclude pattern is an error", "a PathMatch error is dropped: "+fate2.Detail)
+	// errors of the helpers reach NewWatcher's caller
+	var helpers []*ssa.Function
+	for _, f := range []*ssa.Function{gf, pf} {
+		if f != nw {
+			helpers = append(helpers, f)
+		}
+	}
+	if len(helpers) > 0 {
+		errChain(c, rule, helpers, func(f *ssa.Function) bool { return wr.scopeNew[f] }, nil)
+	}
+	// the configuration's lists are handed to the matching parameters
+	var evP *ssa.Parameter
+	for _, f := range sortedFns(wr.scopeNew) {
+		an.EachInstr(f, func(in ssa.Instruction) {
+			if mu, ok := in.(*ssa.MapUpdate); ok && an.FieldProv(mu.Map) == "Watcher.events" {
+				if prm := rangeElemOfParam(p, mu.Key, nw); prm != nil {
+					evP = prm
+				}
+			}
+		})
+	}
+	for _, site := range p.CallSitesOf(nw) {
+		if !an.InModule(site.Parent()) {
+			continue
+		}
+		wiring := func(prm *ssa.Parameter, field string) {
+			if prm == nil {
+				return
+			}
+			i := paramIndex(nw, prm)
+			if i < 0 || i >= len(site.Common().Args) {
+				return
+			}
+			got := an.FieldProv(site.Common().Args[i])
+			c.Check(strings.HasSuffix(got, "."+field), rule, fmt.Sprintf("%s:NewWatcher(%s)", an.Short(site.Parent()), field), site.Pos(), fmt.Sprintf("the watcher's %s list is handed to parameter %q", field, prm.Name()), fmt.Sprintf("parameter %q (the %s list by its use in NewWatcher) receives %s", prm.Name(), field, got))
+		}
+		wiring(incP, "Watch")
+		wiring(excP, "Exclude")
+		wiring(evP, "Events")
+	}
 	// table: matched=false for every exclude → appended once; matched=true → not appended
 	matched := extractOf(pm, 0)
 	for _, m := range []bool{false, true} {
 		m := m
-		ex := &an.Explorer{P: p, NoReturn: noReturn, MaxVisits: 3}
+		ex := &an.Explorer{P: p, NoReturn: noReturn, MaxVisits: 3, MaxDepth: 3,
+			Inline: func(f *ssa.Function) bool { return wr.inW(f) && f != gf }}
 		lMatch.Bound(ex)
 		ex.Atom = func(v ssa.Value) (an.AVal, bool) {
 			for _, x := range matched {
@@ -163,6 +353,9 @@ func selection(c *an.Ctx, nw *ssa.Function, rule string) {
 			return an.AVal{}, false
 		}
 		ex.Effect = func(in ssa.Instruction, st *an.State) string {
+			if in == ssa.Instruction(pm) {
+				return "PathMatch"
+			}
 			sto, ok := in.(*ssa.Store)
 			if !ok {
 				return ""
@@ -178,7 +371,7 @@ func selection(c *an.Ctx, nw *ssa.Function, rule string) {
 				}
 				if b, ok := call.Call.Value.(*ssa.Builtin); ok && b.Name() == "append" {
 					for _, e := range an.VariadicElems(call.Call.Args[1]) {
-						if isMatch(e) {
+						if isMatch(e, st) {
 							return "append(match)"
 						}
 					}
@@ -187,52 +380,34 @@ func selection(c *an.Ctx, nw *ssa.Function, rule string) {
 			}
 			return "paths:=" + an.Prov(sto.Val)
 		}
-		outs := ex.Run(nw, lMatch.BodyEntry(), lMatch.Header, nil)
+		outs := ex.Run(gf, lMatch.BodyEntry(), lMatch.Header, nil)
 		bad := ""
-		sawExcl := false
 		for _, o := range outs {
 			if o.End != "stop" {
 				continue
 			}
-			n := 0
+			n, tested := 0, false
 			for _, e := range o.Effects {
-				if e == "append(match)" {
+				switch e {
+				case "append(match)":
 					n++
-				} else {
+				case "PathMatch":
+					tested = true
+				default:
 					bad = "unexpected write " + e
 				}
 			}
-			// did this path evaluate at least one exclude pattern?
-			tested := false
-			for _, u := range o.Unknown {
-				if strings.Contains(u, "len(exclude)") || strings.Contains(u, "exclude") {
-					tested = true
-				}
-			}
-			_ = tested
 			if m {
-				// a path that tested an exclude (matched) must not append; a path with no exclude patterns appends
 				if n > 1 {
 					bad = "a match is appended more than once"
 				}
-				if n == 1 {
-					// acceptable only when the exclude loop was not entered (no patterns)
-					entered := false
-					for _, u := range o.Unknown {
-						if strings.HasSuffix(u, "=true") && strings.Contains(u, "len(") {
-							entered = true
-						}
-					}
-					if entered {
-						sawExcl = true
-						bad = "a match that an exclude pattern matched is still watched"
-					}
+				if n == 1 && tested {
+					bad = "a match that an exclude pattern matched is still watched"
 				}
 			} else if n != 1 {
 				bad = fmt.Sprintf("a match that no exclude pattern matched is appended %d times, want once", n)
 			}
 		}
-		_ = sawExcl
 		if len(outs) == 0 {
 			bad = "no path"
 		}
@@ -243,6 +418,15 @@ func selection(c *an.Ctx, nw *ssa.Function, rule string) {
 			c.OK(rule, key, pm.Pos(), "%d paths", len(outs))
 		}
 	}
+}
+
+func sortedFns(m map[*ssa.Function]bool) []*ssa.Function {
+	var out []*ssa.Function
+	for f := range m {
+		out = append(out, f)
+	}
+	sort.Slice(out, func(i, j int) bool { return out[i].String() < out[j].String() })
+	return out
 }
 
 func exclUses(fn *ssa.Function, prm *ssa.Parameter) []ssa.Instruction {
@@ -257,28 +441,24 @@ func exclUses(fn *ssa.Function, prm *ssa.Parameter) []ssa.Instruction {
 	return out
 }
 
-func registry(c *an.Ctx, nw *ssa.Function, rule string) {
+func registry(c *an.Ctx, wr *watchRoles, rule string) {
 	p := c.P
+	nw := wr.nw
 	sp := p.Pkg("internal/watch")
 	initFn := sp.Func("init")
 	keys, vals := map[int64]bool{}, map[string]bool{}
-	if initFn != nil {
+	if initFn != nil && wr.opTable != nil {
 		an.EachInstr(initFn, func(in ssa.Instruction) {
 			mu, ok := in.(*ssa.MapUpdate)
 			if !ok {
 				return
 			}
 			isMap := false
-			for _, src := range an.Sources(mu.Map) {
-				_ = src
-			}
-			// the map literal stored into the global fsnotifyMap
+			// the map literal stored into the table
 			if mm, ok := mu.Map.(*ssa.MakeMap); ok {
 				for _, r := range *mm.Referrers() {
-					if st, ok := r.(*ssa.Store); ok {
-						if g, ok := st.Addr.(*ssa.Global); ok && g.Name() == "fsnotifyMap" {
-							isMap = true
-						}
+					if st, ok := r.(*ssa.Store); ok && st.Addr == ssa.Value(wr.opTable) {
+						isMap = true
 					}
 				}
 			}
@@ -294,9 +474,10 @@ func registry(c *an.Ctx, nw *ssa.Function, rule string) {
 		})
 	}
 	if len(keys) == 0 {
-		c.Und(rule, "watch.fsnotifyMap", token.NoPos, "the event table fsnotifyMap was not found")
+		c.Und(rule, "watch:event-table", token.NoPos, "no package-level map[fsnotify.Op]string with constant entries was found in internal/watch")
 		return
 	}
+	tbl := "watch." + wr.opTable.Name()
 	// exported constants of fsnotify.Op
 	var missing []string
 	nOps := 0
@@ -326,23 +507,53 @@ func registry(c *an.Ctx, nw *ssa.Function, rule string) {
 		}
 	}
 	sort.Strings(missing)
-	c.Check(nOps > 0 && len(missing) == 0, rule, "watch.fsnotifyMap:keys", token.NoPos, fmt.Sprintf("all %d fsnotify.Op constants have a name", nOps), fmt.Sprintf("fsnotifyMap has no entry for %v: events of that type are never delivered", missing))
-	// default list
+	c.Check(nOps > 0 && len(missing) == 0, rule, "watch:event-table:keys", token.NoPos, fmt.Sprintf("all %d fsnotify.Op constants have a name in %s", nOps, tbl), fmt.Sprintf("%s has no entry for %v: events of that type are never delivered", tbl, missing))
+	// default list: the literal list(s) of constant strings under NewWatcher
 	defaults := map[string]bool{}
-	an.EachInstr(nw, func(in ssa.Instruction) {
-		sl, ok := in.(*ssa.Slice)
-		if !ok {
-			return
-		}
-		if _, isStr := sl.Type().Underlying().(*types.Slice); !isStr {
-			return
-		}
-		for _, e := range an.VariadicElems(sl) {
-			if s, ok := an.ConstString(e); ok {
-				defaults[s] = true
+	for _, f := range sortedFns(wr.scopeNew) {
+		an.EachInstr(f, func(in ssa.Instruction) {
+			sl, ok := in.(*ssa.Slice)
+			if !ok {
+				return
 			}
+			if _, isStr := sl.Type().Underlying().(*types.Slice); !isStr {
+				return
+			}
+			for _, e := range an.VariadicElems(sl) {
+				if s, ok := an.ConstString(e); ok {
+					defaults[s] = true
+				}
+			}
+		})
+	}
+	if len(defaults) == 0 && initFn != nil {
+		// a package-level default list read under NewWatcher
+		used := map[*ssa.Global]bool{}
+		for _, f := range sortedFns(wr.scopeNew) {
+			an.EachInstr(f, func(in ssa.Instruction) {
+				if u, ok := in.(*ssa.UnOp); ok && u.Op == token.MUL {
+					if g, ok := u.X.(*ssa.Global); ok {
+						used[g] = true
+					}
+				}
+			})
 		}
-	})
+		an.EachInstr(initFn, func(in ssa.Instruction) {
+			st, ok := in.(*ssa.Store)
+			if !ok {
+				return
+			}
+			g, ok := st.Addr.(*ssa.Global)
+			if !ok || !used[g] {
+				return
+			}
+			for _, e := range an.VariadicElems(st.Val) {
+				if s, ok := an.ConstString(e); ok {
+					defaults[s] = true
+				}
+			}
+		})
+	}
 	var diff []string
 	for v := range vals {
 		if !defaults[v] {
@@ -355,18 +566,20 @@ func registry(c *an.Ctx, nw *ssa.Function, rule string) {
 		}
 	}
 	sort.Strings(diff)
-	c.Check(len(diff) == 0, rule, an.Short(nw)+":default-events", nw.Pos(), "with no events configured all event names are subscribed", fmt.Sprintf("the default event list differs from the names in fsnotifyMap: %v", diff))
-	// the default applies exactly when no events are given, and names are stored as given
+	c.Check(len(diff) == 0, rule, an.Short(nw)+":default-events", nw.Pos(), "with no events configured all event names are subscribed", fmt.Sprintf("the default event list differs from the names in %s: %v", tbl, diff))
+	// names are stored as given
 	okStore := false
-	for _, l := range an.Loops(nw) {
-		for b := range l.Blocks {
-			for _, in := range b.Instrs {
-				if mu, ok := in.(*ssa.MapUpdate); ok && an.FieldProv(mu.Map) == "Watcher.events" {
-					_, elems := l.RangeKeyValue()
-					for _, e := range elems {
-						if an.SameValue(mu.Key, e) {
-							if k, ok := mu.Value.(*ssa.Const); ok && k.Value != nil && k.Value.ExactString() == "true" {
-								okStore = true
+	for _, f := range sortedFns(wr.scopeNew) {
+		for _, l := range an.Loops(f) {
+			for b := range l.Blocks {
+				for _, in := range b.Instrs {
+					if mu, ok := in.(*ssa.MapUpdate); ok && an.FieldProv(mu.Map) == "Watcher.events" {
+						_, elems := l.RangeKeyValue()
+						for _, e := range elems {
+							if an.SameValue(mu.Key, e) {
+								if k, ok := mu.Value.(*ssa.Const); ok && k.Value != nil && k.Value.ExactString() == "true" {
+									okStore = true
+								}
 							}
 						}
 					}
@@ -377,76 +590,166 @@ func registry(c *an.Ctx, nw *ssa.Function, rule string) {
 	c.Check(okStore, rule, an.Short(nw)+":subscribe", nw.Pos(), "every listed event name is subscribed as given", "the listed event names are not stored unchanged in the subscribed set")
 }
 
-func handler(c *an.Ctx, h *ssa.Function, rule string) {
+func handler(c *an.Ctx, wr *watchRoles, rule string) {
 	p := c.P
-	var runCall ssa.CallInstruction
-	for _, ci := range an.CallsIn(h, "(*pkg/runner.TaskRunner).Run") {
-		runCall = ci
+	h := wr.handle
+	isTable := func(v ssa.Value) bool {
+		for _, r := range an.Sources(v) {
+			if u, ok := r.(*ssa.UnOp); ok && u.Op == token.MUL && u.X == ssa.Value(wr.opTable) {
+				return true
+			}
+		}
+		return false
 	}
-	if runCall == nil {
+	isName := func(v ssa.Value, st *an.State) bool {
+		for _, cand := range []ssa.Value{v, st.Root(v)} {
+			for _, r := range an.Sources(cand) {
+				lk, ok := r.(*ssa.Lookup)
+				if !ok {
+					if e, isE := r.(*ssa.Extract); isE && e.Index == 0 {
+						lk, ok = e.Tuple.(*ssa.Lookup)
+					}
+				}
+				if ok && wr.opTable != nil && isTable(lk.X) && an.FieldProv(st.Root(lk.Index)) == "Event.Op" {
+					return true
+				}
+			}
+		}
+		return false
+	}
+	var runSite ssa.Instruction
+	var runTarget ssa.Value
+	namedOK, tested := false, false
+	for _, sub := range []bool{true, false} {
+		sub := sub
+		ex := &an.Explorer{P: p, NoReturn: noReturn, MaxDepth: 3,
+			Inline: func(f *ssa.Function) bool { return wr.inW(f) && f != h }}
+		ex.AtomSt = func(v ssa.Value, st *an.State) (an.AVal, bool) {
+			lk, ok := v.(*ssa.Lookup)
+			if e, isE := v.(*ssa.Extract); isE && !ok {
+				if l2, isL := e.Tuple.(*ssa.Lookup); isL {
+					lk, ok = l2, true
+				}
+			}
+			if ok && an.FieldProv(lk.X) == "Watcher.events" && isName(lk.Index, st) {
+				tested = true
+				return an.ABool(sub), true
+			}
+			return an.AVal{}, false
+		}
+		ex.Effect = func(in ssa.Instruction, st *an.State) string {
+			switch x := in.(type) {
+			case *ssa.Call:
+				if an.ShortCallee(&x.Call) == "(*pkg/runner.TaskRunner).Run" {
+					runSite, runTarget = x, st.Root(x.Call.Args[1])
+					return "Run"
+				}
+			case *ssa.MapUpdate:
+				if k, ok := an.ConstString(mu(x).Key); ok && (k == "EventName" || k == "EventPath") {
+					val := "?" + an.FieldProv(st.Root(x.Value))
+					switch {
+					case isName(x.Value, st):
+						val = "name"
+						namedOK = true
+					case an.FieldProv(st.Root(x.Value)) == "Event.Name":
+						val = "Event.Name"
+					}
+					return "set:" + k + "=" + val
+				}
+			}
+			return ""
+		}
+		outs := ex.Run(h, h.Blocks[0], nil, nil)
+		bad := ""
+		for _, o := range outs {
+			if o.End != "return" {
+				continue
+			}
+			n := 0
+			sets := map[string]bool{}
+			for _, e := range o.Effects {
+				if e == "Run" {
+					n++
+					if sub && !(sets["set:EventName=name"] && sets["set:EventPath=Event.Name"]) {
+						bad = fmt.Sprintf("the task runs without EventName = the event's name and EventPath = the event's path set first (seen %v)", o.Effects)
+					}
+				}
+				if strings.HasPrefix(e, "set:") {
+					sets[e] = true
+				}
+			}
+			switch {
+			case sub && n != 1:
+				bad = fmt.Sprintf("a subscribed event runs the task %d times, want once", n)
+			case !sub && n != 0:
+				bad = "an event the watcher is not subscribed to runs the task"
+			}
+		}
+		if len(outs) == 0 {
+			bad = "no path"
+		}
+		key := fmt.Sprintf("%s:row subscribed=%v", an.Short(h), sub)
+		if bad != "" {
+			c.Bad(rule, key, h.Pos(), "%s", bad)
+		} else {
+			c.OK(rule, key, h.Pos(), "%d paths", len(outs))
+		}
+	}
+	_ = namedOK
+	c.Check(tested, rule, an.Short(h)+":filter", h.Pos(), "the run is decided by events[table[event.Op]]", "the handler does not test events[table[event.Op]]: unsubscribed events trigger the task (or subscribed ones do not)")
+	if runSite == nil {
 		c.Bad(rule, an.Short(h)+":run", h.Pos(), "the handler never runs the watcher's task")
 		return
 	}
-	// event name = fsnotifyMap[event.Op]
-	var name *ssa.Lookup
-	an.EachInstr(h, func(in ssa.Instruction) {
-		if lk, ok := in.(*ssa.Lookup); ok {
-			if u, ok := an.Resolve(lk.X).(*ssa.UnOp); ok {
-				if g, ok := u.X.(*ssa.Global); ok && g.Name() == "fsnotifyMap" && an.FieldProv(lk.Index) == "Event.Op" {
-					name = lk
+	// fresh copy of Watcher.task
+	fresh, copied := an.FreshBase(runTarget)
+	fromTask := false
+	if al, ok := an.Resolve(runTarget).(*ssa.Alloc); ok && al.Referrers() != nil {
+		for _, r := range *al.Referrers() {
+			if st, ok := r.(*ssa.Store); ok && st.Addr == ssa.Value(al) {
+				if u, ok := st.Val.(*ssa.UnOp); ok && u.Op == token.MUL && an.FieldProv(u.X) == "Watcher.task" {
+					fromTask = true
 				}
 			}
 		}
-	})
-	if name == nil {
-		c.Bad(rule, an.Short(h)+":event-name", h.Pos(), "the handler does not name the event through fsnotifyMap[event.Op]")
+	}
+	c.Check(fresh && copied && fromTask, rule, an.Short(h)+":copy", runSite.Pos(), "each event run works on its own copy of the watcher's task", "the handler does not run a private copy of the watcher's task (shared object, or a copy of something else)")
+	if !fresh {
 		return
 	}
-	guarded := false
-	for _, g := range an.Guards(runCall.Block()) {
-		lk, ok := g.Cond.(*ssa.Lookup)
-		if ok && an.FieldProv(lk.X) == "Watcher.events" && an.SameValue(lk.Index, name) && g.Outcome {
-			guarded = true
-		}
-	}
-	c.Check(guarded, rule, an.Short(h)+":filter", runCall.Pos(), "the task runs only for subscribed event types", "the run is not dominated by events[name(event.Op)]: unsubscribed events trigger the task (or subscribed ones do not)")
-	// fresh copy
-	target := runCall.Common().Args[1]
-	fresh, copied := an.FreshBase(target)
-	c.Check(fresh && copied, rule, an.Short(h)+":copy", runCall.Pos(), "each event run works on its own copy of the task", "the handler runs the shared task object")
 	cfg := chainCfg(p)
-	for _, field := range []struct{ f, a, b string }{{"Env", "EventName", "EventPath"}} {
-		sts := an.StoresToField(h, target, field.f)
-		good := false
-		var seen []string
-		for _, st := range sts {
-			for _, ch := range cfg.Chains(st.Val) {
-				seen = append(seen, ch.String())
-				if len(ch) == 2 && ch[0].Label == "Task."+field.f && strings.HasPrefix(ch[1].Label, "map:{") {
-					l := ch[1].Label
-					if strings.Contains(l, field.a+"=") && strings.Contains(l, field.b+"=Event.Name") {
-						// EventName's value is the looked-up name
-						good = true
-					}
-				}
+	home := runTarget.(interface{ Parent() *ssa.Function }).Parent()
+	sts := an.StoresToField(home, runTarget, "Env")
+	good := false
+	var seen []string
+	for _, st := range sts {
+		for _, ch := range cfg.Chains(st.Val) {
+			seen = append(seen, ch.String())
+			if len(ch) == 2 && ch[0].Label == "Task.Env" && strings.HasPrefix(ch[1].Label, "map:{") && strings.Contains(ch[1].Label, "EventName=") && strings.Contains(ch[1].Label, "EventPath=") {
+				good = true
 			}
 		}
-		c.Check(good, rule, an.Short(h)+":copy."+field.f, runCall.Pos(), "the copy's env is the task's env with EventName/EventPath on top", fmt.Sprintf("the event variables are not layered as [Task.Env < {EventName, EventPath=event.Name}]: %v", seen))
 	}
+	c.Check(good, rule, an.Short(h)+":copy.Env", runSite.Pos(), "the copy's env is the task's env with EventName/EventPath on top", fmt.Sprintf("the event variables are not layered as [Task.Env < {EventName, EventPath}]: %v", seen))
 }
 
-func registration(c *an.Ctx, run *ssa.Function, rule string) {
+func mu(x *ssa.MapUpdate) *ssa.MapUpdate { return x }
+
+func registration(c *an.Ctx, wr *watchRoles, rule string) {
 	p := c.P
+	run := wr.run
 	var add *ssa.Call
 	var loop *an.Loop
-	for _, l := range an.Loops(run) {
-		if an.FieldProv(l.RangeOperand()) != "Watcher.paths" {
-			continue
-		}
-		for b := range l.Blocks {
-			for _, in := range b.Instrs {
-				if call, ok := in.(*ssa.Call); ok && an.ShortCallee(&call.Call) == "(*github.com/fsnotify/fsnotify.Watcher).Add" {
-					add, loop = call, l
+	for _, f := range sortedFns(wr.syncRun) {
+		for _, l := range an.Loops(f) {
+			if l.RangeOperand() == nil || an.FieldProv(l.RangeOperand()) != "Watcher.paths" {
+				continue
+			}
+			for b := range l.Blocks {
+				for _, in := range b.Instrs {
+					if call, ok := in.(*ssa.Call); ok && an.ShortCallee(&call.Call) == "(*github.com/fsnotify/fsnotify.Watcher).Add" {
+						add, loop = call, l
+					}
 				}
 			}
 		}
@@ -455,16 +758,35 @@ func registration(c *an.Ctx, run *ssa.Function, rule string) {
 		c.Bad(rule, an.Short(run)+":Add", run.Pos(), "Watcher.Run does not register every selected path with fsnotify")
 		return
 	}
-	_, elems := loop.RangeKeyValue()
+	af := add.Parent()
+	keys, elems := loop.RangeKeyValue()
 	okArg := false
 	for _, e := range elems {
 		if an.SameValue(add.Call.Args[1], e) {
 			okArg = true
 		}
 	}
+	// `for i := range paths { p := paths[i] … }`
+	for _, src := range an.Sources(add.Call.Args[1]) {
+		if u, ok := src.(*ssa.UnOp); ok && u.Op == token.MUL {
+			if ia, ok := u.X.(*ssa.IndexAddr); ok && an.FieldProv(ia.X) == "Watcher.paths" {
+				for _, k := range keys {
+					if an.SameValue(ia.Index, k) {
+						okArg = true
+					}
+				}
+				if phi, ok := ia.Index.(*ssa.Phi); ok && phi.Block() == loop.Header {
+					okArg = true
+				}
+			}
+		}
+	}
 	c.Check(okArg, rule, an.Short(run)+":Add(path)", add.Pos(), "every selected path is added", "Add is not given each element of the selected paths")
 	fate := p.ErrFate(add, noReturn)
 	c.Check(fate.Kind == "propagated" || fate.Kind == "converted", rule, an.Short(run)+":err(Add)", add.Pos(), "a path that cannot be watched is an error", "an Add error is dropped: "+fate.Detail)
+	if af != run {
+		errChain(c, rule, []*ssa.Function{af}, func(f *ssa.Function) bool { return wr.syncRun[f] }, nil)
+	}
 	// every iteration reaches Add (no continue before it)
 	ex := &an.Explorer{P: p, NoReturn: noReturn}
 	loop.Bound(ex)
@@ -474,7 +796,7 @@ func registration(c *an.Ctx, run *ssa.Function, rule string) {
 		}
 		return ""
 	}
-	outs := ex.Run(run, loop.BodyEntry(), loop.Header, nil)
+	outs := ex.Run(af, loop.BodyEntry(), loop.Header, nil)
 	all := len(outs) > 0
 	for _, o := range outs {
 		has := false
@@ -490,42 +812,36 @@ func registration(c *an.Ctx, run *ssa.Function, rule string) {
 	c.Check(all, rule, an.Short(run)+":Add-every", add.Pos(), "no selected path is skipped", "a selected path can be skipped without being added")
 	// rename re-add
 	re := false
-	for _, fn := range an.WithAnon(run) {
+	for _, fn := range sortedFns(wr.scopeRun) {
 		for _, ci := range an.CallsIn(fn, "(*github.com/fsnotify/fsnotify.Watcher).Add") {
-			if an.FieldProv(ci.Common().Args[1]) == "Event.Name" {
-				re = true
+			for _, src := range p.DeepSources(ci.Common().Args[1], 2, true) {
+				if an.FieldProv(src) == "Event.Name" {
+					re = true
+				}
 			}
 		}
 	}
 	c.Check(re, rule, an.Short(run)+":re-add", run.Pos(), "a renamed path is added again", "a renamed path is not re-added to fsnotify")
 }
 
-func serving(c *an.Ctx, run, handle *ssa.Function, rule string) {
+func serving(c *an.Ctx, wr *watchRoles, rule string) {
 	p := c.P
+	run := wr.run
 	// handlers in their own goroutine, registered with the events group
-	var goHandle *ssa.Go
-	var loopFn *ssa.Function
-	for _, fn := range an.WithAnon(run) {
-		an.EachInstr(fn, func(in ssa.Instruction) {
-			if g, ok := in.(*ssa.Go); ok && handle != nil {
-				for _, callee := range p.Callees(&g.Call) {
-					if callee == handle {
-						goHandle, loopFn = g, fn
-					}
-				}
-			}
-		})
-	}
-	if goHandle == nil {
+	goHandle, _ := wr.launch.(*ssa.Go)
+	loopFn := wr.loopFn
+	if wr.evLoop == nil {
+		c.Bad(rule, an.Short(run)+":loop", run.Pos(), "nothing under Watcher.Run receives fsnotify's events in a loop")
+	} else if goHandle == nil {
 		c.Bad(rule, an.Short(run)+":go(handler)", run.Pos(), "events are not handled in their own goroutine: a long-running task blocks the delivery of later events")
 	} else {
-		c.OK(rule, an.Short(loopFn)+":go(handler)", goHandle.Pos(), "each event is handled in its own goroutine")
+		c.OK(rule, an.Short(run)+":go(handler)", goHandle.Pos(), "each event is handled in its own goroutine")
 		addDonePairing(c, rule, "Watcher.eventsWg")
+	}
+	if wr.evLoop != nil {
 		// loop exits
-		loop := an.InnermostLoop(an.Loops(loopFn), goHandle.Block())
-		if loop == nil {
-			c.Bad(rule, an.Short(loopFn)+":loop", goHandle.Pos(), "the handler is not started from an event loop")
-		} else {
+		loop := wr.evLoop
+		{
 			for _, x := range exitEdges(loop) {
 				from := x[0]
 				why := ""
@@ -533,12 +849,10 @@ func serving(c *an.Ctx, run, handle *ssa.Function, rule string) {
 				for _, g := range append(an.Guards(from), func() []an.Guard {
 					if br, isBr := an.BranchOf(from); isBr {
 						// the exit edge itself
-						out := br.True
 						outcome := true
 						if loop.Blocks[br.True] {
-							out, outcome = br.False, false
+							outcome = false
 						}
-						_ = out
 						return []an.Guard{{Cond: br.If.Cond, Outcome: outcome, Block: from}}
 					}
 					return nil
@@ -554,10 +868,11 @@ func serving(c *an.Ctx, run, handle *ssa.Function, rule string) {
 					}
 				}
 				pos := from.Instrs[len(from.Instrs)-1].Pos()
-				c.Check(ok, rule, fmt.Sprintf("%s:loop-exit(block %s)", an.Short(loopFn), from.Comment), pos, "the event loop ends because: "+why, "the event loop can end for a reason other than the watcher or a channel being closed: later events are not served")
+				c.Check(ok, rule, fmt.Sprintf("%s:loop-exit(block %s)", an.Short(run), from.Comment), pos, "the event loop ends because: "+why, "the event loop can end for a reason other than the watcher or a channel being closed: later events are not served")
 			}
 		}
 	}
+	_ = loopFn
 	// no Run after Cancel on the same runner
 	bad := false
 	for _, fn := range p.Funcs {
